@@ -214,9 +214,12 @@ class H5Group:
             del self.group[name]
         except Exception:
             raise ValueError("Error deleting {} ".format(name))
-        # Delete if empty and non-root container
+        # Delete if empty and non-root container; a group that carries
+        # attributes is an entity (e.g. a Group or Source whose only member
+        # was its metadata link), not a container, and must stay
         groupdepth = len(self.group.name.split("/")) - 1
-        if delete_if_empty and not len(self.group) and groupdepth > 1:
+        if (delete_if_empty and not len(self.group) and
+                not len(self.group.attrs) and groupdepth > 1):
             del self.parent.group[self.name]
             # del self.group
             self.group = None
